@@ -606,6 +606,22 @@ def str_method(ex, recv, method, e, kwargs, st):
     res = []
     if method in ('format', 'join'):
         for st2, vals in ex.ev_many(list(e.args) + list(kwargs.values()), st):
-            res.append((st2, vals if isinstance(vals, Raised) else vstr(L.fresh('str', L.Str))))
+            if isinstance(vals, Raised):
+                res.append((st2, vals))
+                continue
+            r = L.fresh('str', L.Str)
+            tmpl = e.func.value.value if (method == 'format' and isinstance(e.func.value, ast.Constant)
+                                          and isinstance(e.func.value.value, str)) else None
+            if tmpl is not None:
+                # the result of a literal template's format() differs from every literal the template
+                # cannot produce (its fixed parts must occur, in order)
+                import re
+                parts = re.split(r'\{[^{}]*\}', tmpl.replace('{{', '\x00').replace('}}', '\x01'))
+                rx = re.compile('.*'.join(re.escape(p_.replace('\x00', '{').replace('\x01', '}')) for p_ in parts),
+                                re.S)
+                for lit, const in list(L._str_consts.items()):
+                    if not rx.fullmatch(lit):
+                        st2.assume(r != const)
+            res.append((st2, vstr(r)))
         return res
     raise Unsupported('str method %s' % method)
